@@ -259,6 +259,11 @@ class World:
                 if what == "cancel":
                     res.cancel_requests.append(jid)
             res.cmd_log = list(self.cluster.cmd_log)
+            if self.backend == "slurm" and not self.knobs.get("accounting", True):
+                self.probe("invocations_with_accounting_disabled")
+                if any(e == "sacct" for e, a, rc in res.cmd_log):
+                    self.flag("C08", "accounting_consulted_although_disabled",
+                              f"gwf {' '.join(argv)} called sacct with backend.slurm.accounting_enabled=false")
             if res.killed and self.kill_at is None and res.accepted:
                 pass
         self.trace.log("gwf", argv=list(argv), cwd=cwd_mode, exit=res.exit_code, killed=res.killed,
